@@ -606,7 +606,7 @@ def file_outcome(ctx, data, edit, git_check=True, trusted=None, wskip=False):
     return None
 
 
-def file_ablations(data):
+def file_ablations(data, edit="none"):
     """Simpler valid index files derived from ``data`` (via the reference model), most specific first."""
     P = M.parse_index(data)
     zero = P.trailer == "zero"
@@ -642,7 +642,8 @@ def file_ablations(data):
         yield "extensions", build(extensions=[])
     if any(len(p) >= 0x1000 for p in paths):
         yield "name>=0x1000", build(entries=renamed(lambda p: len(p) >= 0x1000, 0xFFE))
-    if P.version == 4 and any(n >= 128 for n in P.remove_lens):
+    after = sorted(set(paths) | {ADDED_PATH}) if edit == "add" else paths  # the rewrite may create new neighbours
+    if P.version == 4 and any(n >= 128 for n in P.remove_lens + M.remove_lens_of(after)):
         yield "v4-strip>=128", build(version=3)
     if any(len(p) >= 0xFFF for p in paths):
         yield "name>=0xFFF", build(entries=renamed(lambda p: len(p) >= 0xFFF, 0xFFE))
@@ -679,7 +680,7 @@ def run_file(ctx, data, edit, git_check=True, trusted=None, check="file", wskip=
         cause = POSITIVE_KINDS[o[1]]
     else:
         gc = git_check and o[0] == "written-git"
-        cause = _cause(o, data, file_ablations, lambda d: file_outcome(ctx, d, edit, git_check=gc, wskip=wskip))
+        cause = _cause(o, data, lambda d: file_ablations(d, edit), lambda d: file_outcome(ctx, d, edit, git_check=gc, wskip=wskip))
         if cause is None and wskip:
             o2 = file_outcome(ctx, data, edit, git_check=gc, wskip=False)
             if o2 is None or o2[0] != o[0]:
